@@ -55,8 +55,11 @@ PARTIAL = [
     "(ASan, exact leak accounting): that the C objects behind the handles are ALIVE during the callback and released afterwards "
     "(memory validity is not a statement about the model); the executor makes the queries inside every callback and the driver "
     "answers them through the model's handles (lookup by path), so a handle of the wrong element / kind / parent shows up as a "
-    "disagreement.  Not queried: packet iteration through a loop handle inside loop callbacks (would interfere with the walker's "
-    "own iterator); there is no API to ask a loop handle for its container",
+    "disagreement.  Loop handles are queried too (request flag lq): in loop_start / loop_end the handler opens its own packet "
+    "iterator through the handle, counts the packets and closes it (the walker's own iterator is not open then); in packet_start / "
+    "item / packet_end the loop handle saved at loop_start is asked for category and names while the walker's iterator IS open "
+    "(read-only queries must not disturb the walk); model (qLoopPackets / qLoopCategory / qLoopNames through the handle) and "
+    "oracle predict all answers.  There is no API to ask a loop handle for its container",
 ]
 LEVEL_TEXT = ("Proof about the executable model Walk.walk, for all CIFs (any shape/order) and all handler programs "
               "(arbitrary functions of invocation index and event): refinement of a declarative pruning semantics over the "
